@@ -1013,6 +1013,13 @@ C03_KINDS.update({
     "cyclic-tuple-nested":  (None, ['zcy :: fn x do', '    y := x', '    y = ((y, 2), 1)', 'end']),
     "cyclic-tuple-list":    (None, ['zcy :: fn x do', '    y := x', '    zl :: [y, (y, 1)]', 'end']),
     "cyclic-tuple-ret":     (None, ['zcy :: fn x -> do', '    if false do', '        ret (x, 1)', '    end', '    x', 'end']),
+    # the result of dividing a tuple unified with a component of the dividend (356c2fa: `/` was the one operator whose
+    # constraint solving could grow a type; before the fix a native stack overflow)
+    "cyclic-tuple-div":     (None, ['zcy :: fn u do', '    a := (u, 1.0)', '    c := a / 2.0', '    zl :: [u, c]', 'end']),
+    "cyclic-tuple-div-tuple": (None, ['zcy :: fn u do', '    a := (u, 1.0)', '    c := a / (2.0, 2.0)', '    zl :: [u, c]', 'end']),
+    "cyclic-tuple-div-assign": (None, ['zcy :: fn u do', '    a := (u, 1.0)', '    c := a / 2.0', '    w := u', '    w = c', 'end']),
+    "cyclic-tuple-div-nested": (None, ['zcy :: fn u do', '    a := ((u, 2.0), 1.0)', '    c := a / 2.0', '    zl :: [u, c]', 'end']),
+    "ok:tuple-div-unknown": (None, ['zcy :: fn u do', '    a := (u, 1.0)', '    c := a / 2.0', '    zl :: [c, c]', 'end']),
     "ok:cyclic-through-list": (None, ['zcy :: fn x do', '    y := x', '    y = [(y, 1)]', 'end']),
     "ok:cyclic-list":       (None, ['zcy :: fn x do', '    y := x', '    y = [y]', 'end']),
     "ok:tuple-reassigned":  (None, ['zcy :: fn x do', '    y := (x, 1)', '    y = (x, 2)', '    z := y + y', 'end']),
@@ -1097,7 +1104,7 @@ def c03_plants(tmpl, kinds=None):
                     continue
                 if d.get("pure") == "1" and (k in ("loop-cond", "assign-type", "void-store", "param-type", "var-type")
                                              or k.startswith("compound") or "generic" in k
-                                             or "implicit" in k or "valueless" in k or "self-" in k or "cyclic" in k or k == "ok:tuple-reassigned"):
+                                             or "implicit" in k or "valueless" in k or "self-" in k or "cyclic" in k or k in ("ok:tuple-reassigned", "ok:tuple-div-unknown")):
                     continue        # mutable definitions / impure calls are rejected in pure functions anyway
                 out.append((k, "S", i, info, st))
         if k == "ret-type":
